@@ -19,6 +19,7 @@ Terms are nested tuples:
   ('after', callterm, k, old)       pointee of the k-th (&mut) argument after an opaque call
   ('loop', header, what)            loop-carried state at a loop header
 """
+import struct
 import sys
 from collections import namedtuple
 
@@ -231,12 +232,12 @@ class Engine:
         if "b" in c:
             return ("const", ty, bool(c["b"]))
         if "f" in c:
-            r = c["f"]
-            try:
-                pv = float(r)
-            except ValueError:
-                pv = float("nan")
-            return ("const", ty, ("f", int(c["bits"]), pv))
+            bits = int(c["bits"])
+            if ty == "f32":
+                pv = struct.unpack("f", struct.pack("I", bits))[0]
+            else:
+                pv = struct.unpack("d", struct.pack("Q", bits))[0]
+            return ("const", ty, ("f", bits, pv))
         if "i" in c:
             return ("const", ty, int(c["i"]))
         if "str" in c:
@@ -889,8 +890,18 @@ class Engine:
             r = m(self, st, fr, fn, args, t)
             if r is not None:
                 return self.apply_results(st, fr, r, dest, target, site, fn)
-        # 2. inlining
+        # 2. inlining (trait-method calls left unresolved in polymorphic MIR are devirtualised when the receiver
+        #    is an aggregate of a known type with exactly one impl of that trait method)
         body = self.facts.bodies.get(rid)
+        if body is None and "trait" in fn and "resolved" not in fn and args:
+            recv = args[0]
+            if isinstance(recv, tuple) and recv and recv[0] == "ref":
+                recv = self.read_loc(st, recv[1], recv[2])
+            if isinstance(recv, tuple) and recv and recv[0] == "agg" and recv[1] == "adt":
+                cands = self.facts.impl_method(fn["trait"], recv[2], fn["name"])
+                if len(cands) == 1:
+                    body = cands[0]
+                    key = body["path"]
         if body is not None and fr.depth < self.max_depth and self.inline_pred(fn, body):
             if self.inline_loops or not self.loops(body):
                 self.stats["inlined"].add(body["path"])
@@ -1127,6 +1138,10 @@ def m_opt_map(eng, st, fr, fn, args, t):
     return out
 
 
+def m_opt_default(eng, st, fr, fn, args, t):
+    return _ret(st, mk_none())
+
+
 def m_clone(eng, st, fr, fn, args, t):
     return _ret(st, _pointee(eng, st, args[0]))
 
@@ -1253,6 +1268,7 @@ DEFAULT_MODELS = {
     "core::option::Option::<T>::expect": m_opt_unwrap,
     "core::option::Option::<T>::unwrap_or": m_opt_unwrap_or,
     "core::option::Option::<T>::map": m_opt_map,
+    "<core::option::Option<T> as core::default::Default>::default": m_opt_default,
     "core::option::Option::<T>::is_some_and": m_opt_map,
     "core::clone::Clone::clone": m_clone,
     "core::cmp::PartialEq::eq": m_eq,
@@ -1284,6 +1300,11 @@ def show(t, depth=0):
         v = t[2]
         if isinstance(v, tuple):
             if v[0] == "f":
+                if t[1] == "f32":
+                    for prec in range(1, 10):
+                        sx = "%.*g" % (prec, v[2])
+                        if struct.unpack("f", struct.pack("f", float(sx)))[0] == v[2]:
+                            return sx + ("" if ("." in sx or "e" in sx or "n" in sx) else ".0") + "f32"
                 return repr(v[2]) + t[1]
             if v[0] == "str":
                 return repr(v[1])
